@@ -155,6 +155,13 @@ Unsound(g, r) ==
   {e \in Eff(r) : ~ \E k \in DepIdx(g) : LET d == g.decl.deps[k] IN
                       e[1] \in SrcOf(g, r, d) /\ e[2] \in TgtOf(g, r, d)}
 
+\* a gate that may route to END (decl.ends): whenever the gate ITSELF is on screen, the drawing has an END
+\* node and an edge from the gate to it (the control dependency "this gate can finish the run")
+EndMissing(g, r) ==
+  {n \in Names(g.decl.ends) :
+     /\ Visible(g, r, n)
+     /\ ~ \E e \in Drawn(r) : e[1] = n /\ TypeIn(r, e[2]) = "end"}
+
 RendResult(g, r, k) ==
   LET be  == BadEndpoint(r)
       he  == HiddenEnd(r)
@@ -162,15 +169,17 @@ RendResult(g, r, k) ==
       okh == be = {}                         \* the remaining clauses need resolvable endpoints
       mi  == IF okh THEN Missing(g, r) ELSE {}
       un  == IF okh THEN Unsound(g, r) ELSE {}
+      em  == IF okh THEN EndMissing(g, r) ELSE {}
       vs  == ValidState(g, Expanded(r))
       failed == (IF be = {} /\ he = {} THEN <<>> ELSE <<"SelfConsistent">>)
                 \o (IF ob = {} THEN <<>> ELSE <<"Once">>)
                 \o (IF mi = {} THEN <<>> ELSE <<"Complete">>)
                 \o (IF un = {} THEN <<>> ELSE <<"Sound">>)
+                \o (IF em = {} THEN <<>> ELSE <<"EndEdge">>)
                 \o (IF vs THEN <<>> ELSE <<"ValidState">>)
   IN [id |-> ToString(g.id) \o ":" \o ToString(k), ok |-> failed = <<>>, failed |-> failed,
       detail |-> [badEndpoint |-> SetToSeq(be), hiddenEnd |-> SetToSeq(he), once |-> SetToSeq(ob),
-                  missing |-> SortedSeq(mi), unsound |-> SetToSeq(un),
+                  missing |-> SortedSeq(mi), unsound |-> SetToSeq(un), endMissing |-> SetToSeq(em),
                   needed |-> Cardinality({j \in DepIdx(g) : Needs(g, r, g.decl.deps[j])}),
                   eff |-> Cardinality(Eff(r))]]
 
